@@ -637,3 +637,130 @@ Proof.
     by exact (run_invariant_all prov_inv prov_inv_step tr (init ks) s (prov_inv_init ks) Hrun).
   destruct Hinv as (_ & Hcl & _). specialize (Hcl c). rewrite Hd in Hcl. exact Hcl.
 Qed.
+
+(* Progress: whatever has happened, a client that is waiting inside Do or is past it can be
+   brought to its answer by steps of the proxy, of the origin and of its own alone - it never
+   depends on a step of another client (in particular not of one that has disconnected or is
+   slow), on a new arrival or on an eviction. *)
+
+Definition can_finish (s : state) (c : client) : Prop :=
+  exists tr s' r, forallb (step_for c) tr = true /\ run s tr = Some s' /\ ph s' c = Done r.
+
+Lemma can_finish_step s a s1 c :
+  step_for c a = true -> lts_step s a = Some s1 -> can_finish s1 c -> can_finish s c.
+Proof.
+  intros Ha Hs (tr & s' & r & Hok & Hrun & Hd).
+  exists (a :: tr), s', r. cbn [forallb run]. rewrite Ha, Hs. auto.
+Qed.
+
+Lemma step_for_self c : (c =? c) = true.
+Proof. apply Z.eqb_refl. Qed.
+
+Lemma finish_have s c r : ph s c = Post (PHave r) -> can_finish s c.
+Proof.
+  intros H. exists [Respond c], (set_ph s (upd (ph s) c (Done r))), r.
+  cbn [forallb step_for run lts_step]. rewrite H, step_for_self. cbn. rewrite upd_same. auto.
+Qed.
+
+Lemma finish_direct s c : ph s c = Post PDirect -> can_finish s c.
+Proof.
+  intros H.
+  eapply (can_finish_step s (FollowerFallback c KCacheable)).
+  - cbn. apply step_for_self.
+  - cbn [lts_step]. rewrite H. reflexivity.
+  - eapply finish_have. cbn. apply upd_same.
+Qed.
+
+Lemma finish_post s c q : ph s c = Post q -> can_finish s c.
+Proof.
+  intros H. destruct q as [v [|]|r|].
+  - destruct (cache s) as [[w b]|] eqn:Ec.
+    + eapply (can_finish_step s (FollowerReGet c)).
+      * cbn. apply step_for_self.
+      * cbn [lts_step]. rewrite H, Ec. reflexivity.
+      * eapply finish_have. cbn. apply upd_same.
+    + eapply (can_finish_step s (FollowerReGet c)).
+      * cbn. apply step_for_self.
+      * cbn [lts_step]. rewrite H, Ec. reflexivity.
+      * eapply finish_direct. cbn. apply upd_same.
+  - exists [Respond c], (set_ph s (upd (ph s) c (Done (RStored v)))), (RStored v).
+    cbn [forallb step_for run lts_step]. rewrite H, step_for_self. cbn. rewrite upd_same. auto.
+  - eapply finish_have; eauto.
+  - eapply finish_direct; eauto.
+Qed.
+
+Lemma finish_result s c f r :
+  ph s c = InFlight -> flight_ s = Some f -> fl_stage f = SResult r -> can_finish s c.
+Proof.
+  intros Hc Hf Hst.
+  eapply (can_finish_step s FlightReturn); [reflexivity| |].
+  - cbn [lts_step]. rewrite Hf, Hst. reflexivity.
+  - assert (Hq : exists q, after_do r (fl_shared f) = Post q) by (destruct r; cbn; eauto).
+    destruct Hq as (q & Hq).
+    eapply (finish_post _ c q). cbn. rewrite Hc. exact Hq.
+Qed.
+
+Lemma finish_answered s c f n a :
+  ph s c = InFlight -> flight_ s = Some f -> fl_stage f = SAnswered n a -> can_finish s c.
+Proof.
+  intros Hc Hf Hst.
+  assert (exists s1 f1 r, lts_step s LeaderStore = Some s1 /\ ph s1 c = InFlight /\
+            flight_ s1 = Some f1 /\ fl_stage f1 = SResult r) as (s1 & f1 & r & H1 & H2 & H3 & H4).
+  { cbn [lts_step]. rewrite Hf, Hst.
+    destruct a; [| | |destruct (cache s) as [[v b]|]|]; eexists _, _, _; repeat split; eauto. }
+  eapply (can_finish_step s LeaderStore); [reflexivity|exact H1|].
+  eapply finish_result; eauto.
+Qed.
+
+Lemma finish_wait s c f n cond :
+  ph s c = InFlight -> flight_ s = Some f -> fl_stage f = SWait n cond -> can_finish s c.
+Proof.
+  intros Hc Hf Hst.
+  eapply (can_finish_step s (OriginAnswer KCacheable)); [reflexivity| |].
+  - cbn [lts_step]. rewrite Hf, Hst. reflexivity.
+  - eapply (finish_answered _ c); cbn; eauto. reflexivity.
+Qed.
+
+Lemma finish_lookup s c f :
+  ph s c = InFlight -> flight_ s = Some f -> fl_stage f = SLookup -> can_finish s c.
+Proof.
+  intros Hc Hf Hst.
+  destruct (cache s) as [[v [|]]|] eqn:Ec.
+  - eapply (can_finish_step s LeaderLookup); [reflexivity| |].
+    + cbn [lts_step]. rewrite Hf, Hst, Ec. reflexivity.
+    + eapply (finish_result _ c); cbn; eauto. reflexivity.
+  - eapply (can_finish_step s LeaderLookup); [reflexivity| |].
+    + cbn [lts_step]. rewrite Hf, Hst, Ec. reflexivity.
+    + eapply (finish_wait _ c); cbn; eauto. reflexivity.
+  - eapply (can_finish_step s LeaderLookup); [reflexivity| |].
+    + cbn [lts_step]. rewrite Hf, Hst, Ec. reflexivity.
+    + eapply (finish_wait _ c); cbn; eauto. reflexivity.
+Qed.
+
+(* every client inside Do belongs to the running flight *)
+Definition live_inv (s : state) : Prop := flight_ s = None -> forall c, ph s c <> InFlight.
+
+Lemma live_inv_step s a s' : live_inv s -> lts_step s a = Some s' -> live_inv s'.
+Proof.
+  intros Hl Hstep. unfold live_inv in *.
+  destruct a; step_cases Hstep; state_cbn; try discriminate; intros Hn c0;
+    try (specialize (Hl Hn c0)); unfold upd; try (destruct (c0 =? _)); try congruence.
+  destruct (ph s c0); try discriminate. destruct r; discriminate.
+Qed.
+
+Theorem no_client_stuck : forall ks tr s c,
+  run (init ks) tr = Some s ->
+  ph s c = InFlight \/ (exists q, ph s c = Post q) ->
+  can_finish s c.
+Proof.
+  intros ks tr s c Hrun Hw.
+  assert (Hl : live_inv s).
+  { refine (run_invariant_all live_inv live_inv_step tr (init ks) s _ Hrun). intros _ c0; cbn; discriminate. }
+  destruct Hw as [Hw|(q & Hw)]; [|eapply finish_post; eauto].
+  destruct (flight_ s) as [f|] eqn:Hf; [|exfalso; exact (Hl Hf c Hw)].
+  destruct (fl_stage f) eqn:Hst.
+  - eapply finish_lookup; eauto.
+  - eapply finish_wait; eauto.
+  - eapply finish_answered; eauto.
+  - eapply finish_result; eauto.
+Qed.
